@@ -187,6 +187,39 @@ def proof_step(pid, tier, log):
     return res
 
 
+def translator_step(pid, log):
+    """Run gen/translate.py --check and relate its report to property `pid` (via srcmap/deps.json)."""
+    res = {"ran": True, "tied": 0, "broken": [], "relevant_broken": [], "tied_functions_this_property_executes": 0}
+    try:
+        rc, out, err = run([sys.executable, os.path.join(ROOT, "gen", "translate.py"), "--check"], cwd=ROOT, timeout=3600)
+        rep = json.loads(out[out.index("{"):])
+        from gen import srcmap
+        deps = json.load(open(srcmap.DEPS)).get(pid, {"functions": []})
+        mine = set(re.sub(r"#\d+$", "", k) for k in deps["functions"])        # "buint/checked.rs::checked_add"
+        exp = json.load(open(os.path.join(ROOT, "gen", "translate_expected.json")))
+        exp = exp if isinstance(exp, list) else exp.get("functions", exp.get("tied", []))
+        res["tied"] = len(rep.get("tied", []))
+        res["tied_functions_this_property_executes"] = sum(1 for e in exp if isinstance(e, dict) and (e.get("file", "").replace("src/", "", 1) + "::" + e.get("fn", "")) in mine)
+        res["broken"] = [{k: b.get(k) for k in ("key", "file", "fn", "reason")} for b in rep.get("broken", [])]
+        fp_names = set(re.sub(r"#\d+$", "", k) for k in json.load(open(srcmap.FP))["functions"])
+
+        def relevant(b):
+            f, fn = (b["file"] or "").replace("src/", "", 1), b["fn"] or ""
+            if f + "::" + fn in fp_names:
+                return f + "::" + fn in mine
+            return f in set(deps.get("files", []))      # fn name is a macro metavariable in the source (`fn $method`): file level
+        res["relevant_broken"] = [b for b in res["broken"] if relevant(b)]
+        for k in ("error", "frontend_errors", "forbidden_tokens", "untied_new_failures"):
+            if rep.get(k):
+                res[k] = str(rep[k])[:500]
+        res["wall_s"] = rep.get("wall_s")
+    except Exception as e:      # the translator is a second tie: its own failure is reported, never turned into a verdict
+        res["error"] = repr(e)[:300]
+        print("WARNING: delegation translator did not run: " + res["error"])
+    log.append(("translator", 0, json.dumps(res)[:1500]))
+    return res
+
+
 # ------------------------------------------------------------------ harness
 
 def build_harness(binname, log, features=None, toolchain=None, nightly=False):
@@ -425,6 +458,20 @@ def main():
         if drift["relevant"]:
             print(f"NOTE: /repo/src differs from the source the model was reconciled with in code this property's run executes "
                   f"({len(drift['changed'])} items, e.g. {', '.join(drift['changed'][:4])}); escalating the correspondence run to the thorough generators")
+
+    # 2c. static tie of the delegation layer (gen/translate.py, docs/translator.md): the Rust bodies of ~800 forwarding
+    # functions are re-parsed from /repo/src, translated to Lean terms over the hand model, and the kernel re-checks
+    # `model function = translated body` for each (lean/Bnum/Generated/Deleg.lean).  A broken equation means the code no
+    # longer performs the delegation the model mirrors.  Like source drift it is not an alarm by itself (the differential
+    # run below is the tie every property's verdict rests on, and an equivalent re-delegation is harmless): it is printed
+    # as a WARNING, recorded in the evidence, and escalates the correspondence run of the properties that execute the function.
+    trans = {"ran": False}
+    if not a.replay and os.environ.get("VERIF_NO_TRANSLATOR") != "1":
+        trans = translator_step(pid, log)
+        if trans.get("relevant_broken") and tier == "quick" and os.environ.get("VERIF_NO_ESCALATE") != "1":
+            gtier = "thorough"
+        for b in trans.get("relevant_broken", [])[:6]:
+            print(f"WARNING: static tie lost for {b['key']} ({b['file']}): {b['reason']}; the correspondence run of {pid} is escalated")
 
     # 3. harness
     from gen import widthsweep as _wsweep
@@ -672,6 +719,7 @@ def main():
             "width_sweep": {"requests_prefiltered_by_exact_python_value": prefilter["n"], "of_those_sent_to_the_lean_driver_because_the_crate_differed": prefilter["to_driver"],
                             "note": "all-widths sweep (every N = 1..1024 of the u8-digit types): requests whose crate answer equals the exact Python value are accepted without evaluating the Lean model; N <= 40 and every 64th N always go through the Lean driver"},
             "known_findings_hit": {k: v["n"] for k, v in known_hits.items()},
+            "delegation_translator": dict(trans, note="gen/translate.py: Rust bodies of the delegation layer re-parsed from /repo/src and translated to Lean; `tied` = kernel-checked equations `model function = translated Rust body` (lean/Bnum/Generated/Deleg.lean); docs/translator.md"),
             "source_drift": {"relevant_to_this_property": drift["relevant"], "changed": drift["changed"][:40],
                              "escalated_to_thorough_generators": gtier != tier,
                              "note": "gen/srcmap.py: normalised-text hashes of every fn of /repo/src against srcmap/fingerprint.json, restricted to the functions this property's quick run executes (srcmap/deps.json, measured by coverage)"},
